@@ -3,8 +3,8 @@ package props
 import (
 	"fmt"
 	"os"
-	"strconv"
 	"sort"
+	"strconv"
 	"strings"
 
 	"verif/gen"
